@@ -173,7 +173,7 @@ def c17_execute(trace, tier, res, gen=False):
                                 "on a valid document",
                                 error=f"{type(e).__name__}: {e}"[:400])
             sim = EnvSim({"kind": "yaml", "text": text}, modes,
-                         ["C01", "C02", "C05", "C06"], seed, tier,
+                         ["C01", "C02", "C05", "C06", "C07"], seed, tier,
                          scenario=env.scenario, cfg=cfg, env=env)
             sims.append(sim)
             try:
@@ -487,6 +487,14 @@ def operators():
             copy.deepcopy(doc["host_configurations"][k])
         doc["host_configurations"][A(a[0], doc["subnets"][a[0] - 1])].pop(
             "value", None)
+        return True
+
+    @op("host.superfluous_other_spelling")
+    def _(doc, rng):
+        k = rng.choice(_hosts(doc))
+        a = _addr(k)
+        extra = copy.deepcopy(doc["host_configurations"][k])
+        doc["host_configurations"][f"({a[0]},{a[1]})"] = extra
         return True
 
     @op("host.readdressed_outside")
